@@ -224,6 +224,9 @@ def function_state():
                     f = o2.__func__ if isinstance(o2, (staticmethod, classmethod)) else (o2.fget if isinstance(o2, property) else o2)
                     if inspect.isfunction(f):
                         funcs.append((f"{name}.{n2}", f))
+                    elif isinstance(o2, (dict, list, set, np.ndarray)) and not (n2.startswith("__") and n2.endswith("__")):
+                        # class-level mutable attribute: shared by every instance
+                        out[f"{mod.__name__}:{name}.{n2} (class attribute)"] = U.deep(sorted(o2, key=repr) if isinstance(o2, set) else o2)
             elif isinstance(obj, (dict, list, set)) and not name.startswith("__"):
                 out[f"{mod.__name__}:{name}"] = U.deep(sorted(obj, key=repr) if isinstance(obj, set) else obj)
                 continue
@@ -912,6 +915,7 @@ def _est_setup(est, seed):
         ctx = dict(x=x, y=y, w=w, pen=pen, xn=xn)
         if est == "psplines2":
             ctx["config"] = [ns, dg]
+            ctx["alt"] = dict(y=_dy(rng, (5, 6)))
         else:
             x2 = np.linspace(float(x[0]), float(x[-1]), 15)
             ctx["alt"] = dict(x=x2, y=_dy(rng, (15,)), w=np.ones(15))
@@ -974,7 +978,42 @@ def _handed_out(e):
     for n, v in getattr(e, "__dict__", {}).items():
         if not n.startswith("_") and n not in params and v is not None and not callable(v):
             out.setdefault(n, v)
+    # public data attributes found on the class only (e.g. a class-level dictionary read through the instance)
+    for n in dir(type(e)):
+        if n.startswith("_") or n in params or n in out:
+            continue
+        st = inspect.getattr_static(type(e), n)
+        if isinstance(st, (dict, list, set, np.ndarray)):
+            out[n] = getattr(e, n)
     return out
+
+
+def _other_activity(mk, ctx, alt, steps, seed):
+    """Fits that have nothing to do with the estimator under observation."""
+    import copy
+
+    from FDApy.preprocessing.dim_reduction.ufpca import UFPCA
+    from FDApy.preprocessing.smoothing.local_polynomial import LocalPolynomial
+    from FDApy.preprocessing.smoothing.psplines import PSplines
+
+    other = make_subject("dense1d", seed + 11)
+    other.smooth(method="PS")
+    other.smooth(method="LP", bandwidth=0.5)
+    other.mean(method_smoothing="PS")
+    UFPCA(n_components=2, method="covariance").fit(other)
+    x = np.linspace(0, 2, 11)
+    PSplines(n_segments=3, degree=2).fit(y=np.cos(3 * x), x=x, penalty=2.0)
+    LocalPolynomial(bandwidth=0.7).predict(y=np.sin(x), x=x)
+    irr = make_subject("irregular", seed + 11)
+    irr.smooth(method="PS")
+    # another instance of the same class, on other data when the case has some
+    e2 = mk()
+    c2 = {k: (copy.deepcopy(v) if isinstance(v, (list, dict)) else v) for k, v in ctx.items()}
+    if alt is not None:
+        c2.update(alt)
+    c2["scores"] = None
+    np.random.seed(4242)
+    steps[0][1](e2, c2)
 
 
 def _config_of(e):
@@ -1202,6 +1241,18 @@ def _est(case):
                                   f"with read-only inputs {n1} raised {err_class(x3)}: {str(x3)[:80]}", [kindc]))
     except Exception as ex:  # noqa: BLE001
         viol.append(_viol("repeatable", f"{cls}.{steps[0][0]}", f"read-only run crashed: {err_class(ex)} {str(ex)[:80]}", ["second_call_differs"]))
+    # ---- OTHER fits: another instance of the same class on other data, data-object methods that use the smoothers /
+    #      estimators internally.  Whatever the first estimator handed out (attributes read after its fit, returned
+    #      results — references taken BEFORE these fits) must be unchanged.
+    try:
+        _other_activity(mk, ctx, alt, steps, seed)
+    except Exception:  # noqa: BLE001
+        pass
+    for (en, er, es) in earlier:
+        d = U.diff_paths(es, U.deep(er, skip_cache=True))
+        if d:
+            viol.append(_viol("earlier_results_unchanged", f"{cls}.fit", f"a later fit of ANOTHER estimator / a data-object method changed what this estimator had handed out: {en} at {d[:3]}",
+                              ["result_mutated", "changed_by_another_fit"]))
     d_all = {k: U.diff_paths(snap_ctx0[k], U.deep(v)) for k, v in ctx.items()}
     for k, d in d_all.items():
         if d and not any(v["clause"] in ("inputs_unchanged", "config_unchanged") for v in viol):
